@@ -41,7 +41,11 @@ func VerifH_C04_source_bytes_never_panic() {
 	}
 	n := verifChoose("n", maxn+1)
 	src := nondetString("src", n)
-	switch verifChoose("context", 4) {
+	ncontexts := 4
+	if n == 2 {
+		ncontexts = 2 // two arbitrary bytes: alone and after "return "
+	}
+	switch verifChoose("context", ncontexts) {
 	case 1:
 		src = "return " + src
 	case 2:
